@@ -57,6 +57,9 @@ impl Scheduler for Pb {
         if sh.done {
             return None;
         }
+        if let Ok(mut c) = CAPTURED.try_lock() {
+            *c = None;
+        }
         if sh.started {
             sh.execs += 1;
             sh.steps += self.step as u64;
@@ -148,6 +151,50 @@ fn advance(stack: &mut Vec<Dec>, bound: u8) -> bool {
     }
 }
 
+/// First panic of the current execution, captured at panic time by the panic hook.
+#[derive(Default, Clone)]
+pub struct Captured {
+    pub loc: String,
+    pub msg: String,
+}
+pub static CAPTURED: Mutex<Option<Captured>> = Mutex::new(None);
+/// (scenario index, scenario name, shared DFS state) of the scenario being explored
+pub static CURRENT: Mutex<Option<(usize, String, u8, Arc<Mutex<Shared>>)>> = Mutex::new(None);
+
+fn shorten(loc: &str) -> String {
+    match loc.find("/src/") {
+        Some(i) if loc.contains(".cargo/registry") => {
+            let pre = &loc[..i];
+            format!("{}{}", pre.rsplit('/').next().unwrap_or(""), &loc[i..])
+        }
+        _ => loc.to_string(),
+    }
+}
+
+pub fn install_tap() {
+    *PANIC_TAP.lock().unwrap() = Some(Box::new(|loc, msg| {
+        let mut c = match CAPTURED.try_lock() {
+            Ok(c) => c,
+            Err(_) => return,
+        };
+        if c.is_some() {
+            return; // secondary panic while unwinding
+        }
+        *c = Some(Captured { loc: shorten(loc), msg: msg.chars().take(600).collect() });
+        // persist at once: the process may abort while unwinding suspended tasks
+        if let (Ok(cur), Ok(out)) = (CURRENT.try_lock(), OUT_PATH.try_lock()) {
+            if let (Some((idx, name, bound, sh)), Some(out)) = (cur.as_ref(), out.as_ref()) {
+                if let Ok(s) = sh.try_lock() {
+                    let len = s.last_len;
+                    let schedule: Vec<u8> = s.stack.iter().take(len).map(|d| d.choice).collect();
+                    let j = json!({"cfg": idx, "scenario": name, "preemption_bound": bound, "schedule": schedule, "loc": shorten(loc), "msg": msg.chars().take(600).collect::<String>()});
+                    let _ = std::fs::write(format!("{}.fail", out), j.to_string());
+                }
+            }
+        }
+    }));
+}
+
 pub struct Failure {
     pub schedule: Vec<u8>,
     pub msg: String,
@@ -164,7 +211,7 @@ fn config() -> shuttle::Config {
     cfg
 }
 
-fn classify(msg: &str) -> String {
+pub fn classify(msg: &str) -> String {
     if msg.contains("deadlock") {
         "deadlock".into()
     } else if msg.contains("exceeded max_steps") || msg.contains("max_steps") {
@@ -180,8 +227,9 @@ pub type Body = Arc<dyn Fn() + Send + Sync + 'static>;
 
 /// Explore one scenario exhaustively up to `bound` preemptions. Up to `max_fail` failing
 /// schedules are collected (the DFS resumes after each failing vector).
-pub fn explore_scenario(bound: u8, cap: u64, body: Body, max_fail: usize) -> (Shared, Vec<Failure>) {
+pub fn explore_scenario(idx: usize, name: &str, bound: u8, cap: u64, body: Body, max_fail: usize) -> (Shared, Vec<Failure>) {
     let sh = Arc::new(Mutex::new(Shared { cap, ..Default::default() }));
+    *CURRENT.lock().unwrap() = Some((idx, name.to_string(), bound, sh.clone()));
     let mut fails = vec![];
     loop {
         let pb = Pb { bound, step: 0, sh: sh.clone() };
@@ -191,7 +239,11 @@ pub fn explore_scenario(bound: u8, cap: u64, body: Body, max_fail: usize) -> (Sh
         match r {
             Ok(_) => break,
             Err(e) => {
-                let msg = panic_msg(e);
+                let cap = CAPTURED.lock().unwrap().clone();
+                let (msg, loc) = match cap {
+                    Some(c) => (c.msg, c.loc),
+                    None => (panic_msg(e), shorten(&last_panic_loc())),
+                };
                 let mut s = sh.lock().unwrap();
                 let len = s.last_len;
                 let schedule: Vec<u8> = s.stack.iter().take(len).map(|d| d.choice).collect();
@@ -210,7 +262,7 @@ pub fn explore_scenario(bound: u8, cap: u64, body: Body, max_fail: usize) -> (Sh
                     s.done = true;
                 }
                 let kind = classify(&msg);
-                fails.push(Failure { schedule, msg: msg.chars().take(600).collect(), kind, loc: last_panic_loc() });
+                fails.push(Failure { schedule, msg: msg.chars().take(600).collect(), kind, loc });
                 if !more || fails.len() >= max_fail {
                     if fails.len() >= max_fail && more {
                         s.capped = true;
@@ -289,6 +341,10 @@ impl Scheduler for PbReplay {
     }
 }
 
+pub fn make_sig(scenario: &str, kind: &str, msg: &str, loc: &str) -> String {
+    format!("{}:{}:{}", scenario, kind, if kind == "oracle" { msg.split(':').nth(1).unwrap_or("").trim().to_string() } else if kind == "deadlock" || kind == "livelock" { String::new() } else { loc.to_string() })
+}
+
 /// A named scenario of a property.
 pub struct Scenario {
     pub name: String,
@@ -328,12 +384,19 @@ pub fn run_scenarios(o: &Opts, stats: &mut Stats, scenarios: Vec<Scenario>) -> O
         }
         return None;
     }
+    install_tap();
     for (idx, sc) in scenarios.iter().enumerate() {
         if !o.mine(idx) {
             continue;
         }
+        // flush what is known so far: if the process aborts inside this scenario the driver
+        // resumes after it
+        if let Some(out) = OUT_PATH.lock().unwrap().as_ref() {
+            let _ = std::fs::write(out, stats.to_json(Some(idx)).to_string());
+        }
         OUTCOMES.lock().unwrap().clear();
-        let (sh, fails) = explore_scenario(sc.bound, sc.cap, sc.body.clone(), 4);
+        let (sh, fails) = explore_scenario(idx, &sc.name, sc.bound, sc.cap, sc.body.clone(), 4);
+        *CURRENT.lock().unwrap() = None;
         stats.configs += 1;
         stats.executions += sh.execs;
         stats.transitions += sh.steps;
@@ -360,7 +423,7 @@ pub fn run_scenarios(o: &Opts, stats: &mut Stats, scenarios: Vec<Scenario>) -> O
         stats.sample(json!({"scenario": sc.name, "preemption_bound": sc.bound, "schedules": sh.execs, "max_steps": sh.max_steps, "distinct_outcomes": distinct.keys().collect::<Vec<_>>()}));
         let mut seen = std::collections::BTreeSet::new();
         for f in fails {
-            let sig = format!("{}:{}:{}", sc.name, f.kind, if f.kind == "oracle" { f.msg.split(':').nth(1).unwrap_or("").trim().to_string() } else { f.loc.clone() });
+            let sig = make_sig(&sc.name, &f.kind, &f.msg, &f.loc);
             if !seen.insert(sig.clone()) {
                 continue;
             }
